@@ -260,6 +260,8 @@ impl Gates {
 pub struct GateFs {
     inner: Arc<dyn FileSystem>,
     gates: Arc<Gates>,
+    /// the database root as raindb names it (removal of it is a gate point)
+    root: PathBuf,
 }
 
 impl FileSystem for GateFs {
@@ -297,9 +299,15 @@ impl FileSystem for GateFs {
         self.inner.remove_file(path)
     }
     fn remove_dir(&self, path: &Path) -> std::io::Result<()> {
+        if path == self.root {
+            self.gates.pass("remove_root");
+        }
         self.inner.remove_dir(path)
     }
     fn remove_dir_all(&self, path: &Path) -> std::io::Result<()> {
+        if path == self.root {
+            self.gates.pass("remove_root");
+        }
         self.inner.remove_dir_all(path)
     }
     fn get_file_size(&self, path: &Path) -> std::io::Result<u64> {
@@ -1243,6 +1251,23 @@ impl Run {
                 self.seq_open();
                 self.probe_all();
             }
+            7 => {
+                // destroy parked at its LAST step - the removal of the (by then empty) root
+                // directory, after LOCK was unlinked and the lock released: an open in that window
+                // creates a new database, which the resumed destroy must leave alone
+                self.round("gate-destroy-before-rmdir");
+                self.ensure_owner();
+                self.seq_close_all();
+                self.gated("g7", "remove_root", false, Job::Destroy, |r| {
+                    r.seq_open();
+                    r.probe_all();
+                });
+                self.probe_all();
+                self.intruders();
+                self.probe_all();
+                self.cleanup();
+                return;
+            }
             _ => {
                 // an open that has finished its pre-lock work is parked; a destroy runs up to the
                 // unlink of LOCK; the open continues; the destroy continues
@@ -1363,6 +1388,7 @@ pub fn cmd(m: &HashMap<String, String>) -> i32 {
             let fs: Arc<dyn FileSystem> = Arc::new(GateFs {
                 inner,
                 gates: Arc::clone(&gatesv),
+                root: PathBuf::from(&db_path),
             });
 
             // watchdog: on a hang write what there is and leave with code 3
@@ -1456,7 +1482,7 @@ pub fn cmd(m: &HashMap<String, String>) -> i32 {
             // (c) forced schedules, (b) races, interleaved
             let mut plan: Vec<usize> = vec![];
             for _ in 0..gates {
-                plan.extend(0..8usize);
+                plan.extend(0..9usize);
             }
             let mut kinds: Vec<Option<usize>> = plan.into_iter().map(Some).collect();
             kinds.extend((0..rounds).map(|_| None));
